@@ -2828,9 +2828,14 @@ pub(crate) mod convert {
                     read::AttributeValue::Sdata(val) => val,
                     _ => return Err(ConvertError::InvalidAttributeValue),
                 };
+                // File indices must be converted because the converted line program
+                // may number its files differently. GCC uses this form for DW_AT_decl_file.
+                if let read::AttributeValue::FileIndex(val) = attr.value() {
+                    return Ok(AttributeValue::FileIndex(
+                        self.convert_file_index(read_unit, val)?,
+                    ));
+                }
                 // TODO: should we limit which names this is supported for?
-                // For example, if it occurred for DW_AT_decl_file then we
-                // wouldn't correct convert the file index.
                 return Ok(AttributeValue::ImplicitConst(implicit_const_value));
             }
             Ok(match attr.value() {
